@@ -108,8 +108,8 @@ pub fn assemble_with(p: &Preprocessor, src: &str) -> Result<Asm, AsmErr> {
                 k.clone(),
                 LabelInfo {
                     is_code: matches!(v.get_type(), LabelType::CODE),
-                    source_position: v.source_position,
-                    map: v.map,
+                    source_position: v.source_position as usize,
+                    map: v.map as usize,
                 },
             );
         }
@@ -129,7 +129,7 @@ impl Asm {
         for (k, v) in self.labels.iter() {
             label_map.insert(
                 k.clone(),
-                Label::new(if v.is_code { LabelType::CODE } else { LabelType::DATA }, v.source_position, v.map),
+                Label::new(if v.is_code { LabelType::CODE } else { LabelType::DATA }, v.source_position as _, v.map as _),
             );
         }
         // (built through Default so that a field added to the context does not break the harness)
